@@ -197,6 +197,8 @@ def editRaws (rs : List Raw) : TableOp → List Raw
   | .add r => rs ++ [r]
   | .del d a => rs.filter (fun r => !sameKey d a (normalize r))
   | .upd td ta u => (replaceFirstRaw (fun r => sameKey td ta (normalize r)) u rs).getD rs
+  | .reload => rs          -- saving and loading the configuration changes nothing
+  | .bad => rs             -- a rejected request changes nothing
 
 /-- One row of a dump of the live table: pattern, answer, record type, address. -/
 abbrev Row := Bytes × Bytes × Nat × Bytes
@@ -206,6 +208,17 @@ def rowOf (e : Entry) : Row := (e.domain, e.answer, e.typ.code, e.ip.getD [])
 /-- The live table is the configured list, normalized (derived type and address
 included). -/
 def tableOK (rs : List Raw) (dump : List Row) : Bool := dump == (prepare rs).map rowOf
+
+/-- `GET /control/rewrite/list` shows the configured list (as stored). -/
+def listOK (rs : List Raw) (shown : List (Bytes × Bytes)) : Bool :=
+  shown == (prepare rs).map (fun e => (e.domain, e.answer))
+
+/-- A query the rewrites pass through is left to the other filters (here: it is
+blocked when a blocking rule covers it); a rewritten one is not touched by them. -/
+def verdictOK (tbl : List Entry) (rules : List Bytes) (host : Bytes) (qt : Nat) : Verdict → Bool
+  | .rewritten o => o.rewritten && specOK tbl (lower host) qt o
+  | .blocked => specOK tbl (lower host) qt Out.empty && blockedBy rules (lower host)
+  | .notFound => (host == [] || specOK tbl (lower host) qt Out.empty) && !(host != [] && blockedBy rules (lower host))
 
 /-! ### Prop-level vocabulary for the order-independence theorems -/
 
